@@ -91,6 +91,9 @@ CAMPAIGNS.update({
     "coherence_walks": model_campaign(
         "coherence_walks", palettes=IDONLY, heaps="std",
         quick=[ex(ph(ALLOPS, True, pick=60), ph(["probe"])),
+               ex(ph(["filter", "remove_empty", "head"], pick=12), ph(["update_ids"], True), ph(["probe"])),
+               ex(ph(["filter", "remove_empty", "head"], pick=12), ph(["add_metadata", "sort_order", "filter"], True, pick=20),
+                  ph(["probe"])),                                   # operations on a shrunk / emptied table
                ex(ph(ALLOPS, pick=12), ph(ALLOPS, pick=5), ph(["probe"])),
                ex(ph(ALLOPS, pick=8), ph(ALLOPS, pick=3), ph(ALLOPS, pick=3), ph(ALLOPS, pick=2), ph(["probe"]))],
         thorough=[ex(ph(ALLOPS, True), ph(["probe"])),
